@@ -122,6 +122,11 @@ bool Module::initialize(const Json &js_parent)
     for (const auto &item : children_) {
         if (!item.module_ptr->initialize(js_this) && item.required) {
             LogErr("required module `%s' initialize() fail", item.module_ptr->name().c_str());
+            //! roll back: state_ stays kNone, so a later cleanup() would skip this module;
+            //! undo, in reverse order, the children already initialised and then our own onInit()
+            for (auto iter = children_.rbegin(); iter != children_.rend(); ++iter)
+                iter->module_ptr->cleanup();
+            onCleanup();
             return false;
         }
     }
